@@ -283,7 +283,7 @@ def PosSizes (r : Region V) : Prop := ∀ c ∈ r, 0 < size c.2
 def NoTopStored (r : Region V) : Prop := ∀ c ∈ r, isTop c.2 = false
 
 /-- The region invariant. `BMap.Sorted` (the BTreeMap representation invariant) follows from
-`NoOverlap` and `PosSizes` (`Inv.sorted` in C05/Props) but is kept for readability. -/
+`NoOverlap` and `PosSizes` (`sorted_of_noOverlap` in C05/Lemmas) but is kept for readability. -/
 structure Inv (r : Region V) : Prop where
   sorted : BMap.Sorted r
   noOverlap : NoOverlap r
